@@ -74,6 +74,7 @@ def kernel_catalogue(v, seed):
         "cyl": lambda: K.CylindricalKernel(3, K.RBFKernel()),
         "constant_rbf": lambda: K.ConstantKernel(constant_constraint=Interval(lo, hi)) + K.RBFKernel(),
         "kiss_auto": lambda: K.ScaleKernel(K.GridInterpolationKernel(K.RBFKernel(lengthscale_constraint=Interval(lo, hi)), grid_size=8, num_dims=d)),
+        "rff_lazy": seeded(lambda: K.ScaleKernel(K.RFFKernel(num_samples=4))),  # num_dims omitted: the random weights are drawn at the first call
         "rbf_prior_by_name": lambda: _prior_by_name(K.RBFKernel(lengthscale_constraint=Interval(lo, hi)), P.GammaPrior(pa, 3.0)),
     }
 
@@ -136,7 +137,7 @@ class Var(gpytorch.models.ApproximateGP):
 
 
 EXACT_SPECS = [(k, "gaussian") for k in kernel_catalogue(0, 0)] + [("rbf_interval_gamma", "fixed"), ("rbf_interval_gamma", "fixed_learn"),
-                                                                   ("mt", "multitask"), ("sgpr", "gaussian"), ("gridk", "gaussian"),
+                                                                   ("mt", "multitask"), ("mt_lkj", "multitask"), ("rff_lazy", "gaussian"), ("sgpr", "gaussian"), ("gridk", "gaussian"),
                                                                    ("rbf_interval_gamma", "gaussian_noiseprior"), ("lcm", "multitask")]
 VAR_SPECS = [("vs", "chol"), ("vs", "mf"), ("vs", "delta"), ("vs", "nat"), ("vs", "trilnat"), ("uvs", "chol"), ("bdvs", "chol"), ("bdvs", "mf"),
              ("grid", "chol"), ("orth", "delta"), ("ciq", "nat"), ("vs_fixedz", "chol"), ("uvs_fixedz", "chol")]
@@ -165,7 +166,11 @@ def make(spec, v, seed):
     else:
         lik = L.MultitaskGaussianLikelihood(num_tasks=2, rank=1)
     mean = None
-    if kname == "mt":
+    if kname == "mt_lkj":  # an LKJ prior on the task covariance: its shape parameter eta is prior state like any other prior parameter
+        kern = K.MultitaskKernel(K.RBFKernel(), num_tasks=2, rank=1,
+                                 task_covar_prior=P.LKJCovariancePrior(2, 1.5 + v, P.SmoothedBoxPrior(0.05, 3.0 + v)))
+        mean = gpytorch.means.MultitaskMean(gpytorch.means.ConstantMean(), num_tasks=2)
+    elif kname == "mt":
         kern = K.MultitaskKernel(K.RBFKernel(), num_tasks=2, rank=1)
         mean = gpytorch.means.MultitaskMean(gpytorch.means.ConstantMean(), num_tasks=2)
     elif kname == "lcm":
@@ -349,6 +354,10 @@ def run_cell(cell, seed):
             model.train()
             with torch.no_grad():
                 model(X)  # the grid is fitted by the first call (to the training inputs, as in any training run); save points come after it
+        if spec[1] == "rff_lazy":
+            model.train()
+            with torch.no_grad():
+                model(X).covariance_matrix  # the random features are drawn by the first evaluation; save points come after it
         if spec[0] == "var":
             model.eval()
             with torch.no_grad():
